@@ -120,3 +120,18 @@ def log_exp_apply(ctx):
     ctx.eq("cal_err.value", r.value, a * b + 2.0 * a, clause="cal_err(f, x, y, c).value == f(a, b, c)")
     ctx.eq("cal_err.error", r.error, tf.sqrt(((b + 2.0) * sa) * ((b + 2.0) * sa) + (a * sb) * (a * sb)),
            clause="cal_err(...).error == sqrt(sum_k (df/dx_k sigma_k)^2), exact arguments contribute 0")
+    # exact arguments at EVERY position, analytic and numerical gradient (added after seeded change C09-cal_err_analytic_grad_misaligned:
+    # an exact number in front of an uncertain one shifts the pairing of derivatives and errors).  f is linear in each argument, so the
+    # central difference of the numerical branch is exact over the reals.
+    f3 = lambda u, v, w: u * v + w * u + 3.0 * w  # noqa: E731
+    g3 = lambda u, v, w: [v + w, u, u + 3.0]  # noqa: E731
+    for tag, args, val, dsq in (
+        ("exact_first", (2.0, x, y), 2.0 * a + b * 2.0 + 3.0 * b, (2.0 * sa) * (2.0 * sa) + (5.0 * sb) * (5.0 * sb)),
+        ("exact_middle", (x, 2.0, y), a * 2.0 + b * a + 3.0 * b, ((2.0 + b) * sa) * ((2.0 + b) * sa) + ((a + 3.0) * sb) * ((a + 3.0) * sb)),
+        ("exact_first_two", (2.0, 0.5, y), 1.0 + b * 2.0 + 3.0 * b, (5.0 * sb) * (5.0 * sb)),
+    ):
+        for how, kw in (("analytic", dict(grad=g3)), ("numeric", dict())):
+            r = mod.cal_err(f3, *args, **kw)
+            ctx.eq("cal_err.%s.%s.value" % (tag, how), r.value, val, clause="cal_err(f, %s; %s gradient).value == f at the central values" % (tag, how))
+            ctx.eq("cal_err.%s.%s.error" % (tag, how), r.error, tf.sqrt(dsq),
+                   clause="cal_err(f, %s; %s gradient).error == sqrt(sum over the UNCERTAIN arguments (df/dx_k sigma_k)^2), each derivative paired with its own argument's sigma" % (tag, how))
